@@ -3,6 +3,7 @@
 pub mod bounds;
 pub mod dynamic;
 pub mod encodings;
+pub mod independence;
 pub mod sat;
 pub mod static_eval;
 pub mod store_io;
@@ -19,6 +20,7 @@ pub fn run(ctx: &mut Ctx, prop: &str) -> bool {
         "C04" => static_eval::run(ctx, static_eval::Prop::C04),
         "C07" => static_eval::run(ctx, static_eval::Prop::C07),
         "C08" | "C09" => dynamic::run(ctx, prop),
+        "C06" => independence::run(ctx),
         "C10" => encodings::run(ctx),
         "C18" => bounds::run_c18(ctx),
         "C19" => bounds::run_c19(ctx),
@@ -33,7 +35,7 @@ pub fn run(ctx: &mut Ctx, prop: &str) -> bool {
     true
 }
 
-pub fn replay(ctx: &mut Ctx, prop: &str, case: &Value, detail: &Value) -> Result<(), String> {
+pub fn replay(ctx: &mut Ctx, prop: &str, case: &Value, detail: &Value, signature: &str) -> Result<(), String> {
     match prop {
         "C01" => static_eval::replay(ctx, static_eval::Prop::C01, case, detail),
         "C02" => static_eval::replay(ctx, static_eval::Prop::C02, case, detail),
@@ -41,6 +43,7 @@ pub fn replay(ctx: &mut Ctx, prop: &str, case: &Value, detail: &Value) -> Result
         "C04" => static_eval::replay(ctx, static_eval::Prop::C04, case, detail),
         "C07" => static_eval::replay(ctx, static_eval::Prop::C07, case, detail),
         "C08" | "C09" => dynamic::replay(ctx, prop, case),
+        "C06" => independence::replay(ctx, case, detail, signature),
         "C10" => encodings::replay(ctx, case, detail),
         "C18" => bounds::replay_c18(ctx, case, detail),
         "C19" => bounds::replay_c19(ctx, case),
@@ -85,7 +88,7 @@ pub fn run_corpus(ctx: &mut Ctx, prop: &str) {
             }
         };
         ctx.count("corpus_cases_replayed");
-        if let Err(e) = replay(ctx, prop, &v["case"], &v["detail"]) {
+        if let Err(e) = replay(ctx, prop, &v["case"], &v["detail"], v["signature"].as_str().unwrap_or("")) {
             ctx.harness_error(&format!("corpus file {:?}: {}", f, e));
         }
     }
